@@ -1334,6 +1334,9 @@ def is_kanji(data):
         code = (next(data_iter) << 8) | next(data_iter)
         if not (0x8140 <= code <= 0x9ffc or 0xe040 <= code <= 0xebbf):
             return False
+        if not 0x40 <= code & 0xff <= 0xfc or code & 0xff == 0x7f:
+            # Not a valid Shift JIS trail byte: the Kanji mode cannot represent it
+            return False
     return True
 
 
